@@ -280,6 +280,13 @@ func (x *Executor) blanket(fr *Frame, st *State, callee *ssa.Function, args []Va
 		rule = "fail-point calls are no-ops"
 	case pkgPath == "fmt" && (strings.HasPrefix(key, "Sprint") || strings.HasPrefix(key, "Print") || key == "Errorf" || strings.HasPrefix(key, "Fprint")):
 		rule = "fmt formatting reads its arguments only"
+	case pkgPath == "sort" && (key == "Sort" || key == "Stable") && len(args) == 1 && args[0].Boxed != nil:
+		if sl, ok := args[0].Boxed.Ty.Underlying().(*types.Slice); ok {
+			x.permuteSlice(st, args[0].Boxed.T, sl.Elem())
+			u.trusted["sort.Sort permutes the elements of its slice and changes nothing else (Len/Less/Swap of slice-based sort.Interface implementations are assumed to do only that)"] = true
+			return Val{T: "0", Ty: resTy}, true
+		}
+		return Val{}, false
 	case pkgPath == "sort" && (key == "Slice" || key == "SliceStable") && len(args) == 2 && args[0].Boxed != nil:
 		if sl, ok := args[0].Boxed.Ty.Underlying().(*types.Slice); ok {
 			x.permuteSlice(st, args[0].Boxed.T, sl.Elem())
